@@ -7,6 +7,6 @@ export GOFLAGS=-mod=mod GOPROXY=off GOSUMDB=off GOTOOLCHAIN=local
 cp /repo/go.sum go/go.sum
 (cd go && go build -tags verif ./...)
 cp /repo/go.sum gosyn/go.sum
-(cd gosyn && go1.26 vet -tags verif ./... >/dev/null 2>&1 || true; go1.26 test -c -tags verif -o /dev/null ./brokertrace; go1.26 test -c -tags verif -o /dev/null ./conntrace; go1.26 test -c -tags verif -o /dev/null ./servicetrace)
+(cd gosyn && go1.26 vet -tags verif ./... >/dev/null 2>&1 || true; go1.26 test -c -tags verif -o /dev/null ./brokertrace; go1.26 test -c -tags verif -o /dev/null ./conntrace; go1.26 test -c -tags verif -o /dev/null ./servicetrace; go1.26 test -c -tags verif -o /dev/null ./clienttrace)
 mkdir -p evidence replays .bin .work
 echo setup-ok
